@@ -115,3 +115,128 @@ Proof.
     transitivity (fpow_nat w (i - j) - 1 + 1); [ring|rewrite H; ring].
 Qed.
 End Div.
+
+Section DegreeTest.
+Context {PR : PrimeR}.
+Add Field FrFieldDT : fr_field_theory.
+
+Lemma fpow_root_n k w : (1 <= k)%nat -> fpow_nat w (Nat.pow 2 (k - 1)) = - (1) -> fpow_nat w (Nat.pow 2 k) = 1.
+Proof.
+  intros Hk Hw. replace (Nat.pow 2 k) with (Nat.pow 2 (k - 1) + Nat.pow 2 (k - 1))%nat.
+  - rewrite fpow_nat_add, Hw. ring.
+  - destruct k; [lia|]. cbn [Nat.pow]. replace (S k - 1)%nat with k by lia. lia.
+Qed.
+
+(* vanishing on the n-th roots of unity <=> divisible by X^n - 1, with the degree of the quotient *)
+Theorem vanishing_iff_divisible k w p :
+  (1 <= k)%nat -> fpow_nat w (Nat.pow 2 (k - 1)) = - (1) -> w <> 0 ->
+  let n := Nat.pow 2 k in
+  (forall i, (i < n)%nat -> peval p (fpow_nat w i) = 0) <->
+  exists q, (length q <= length p - n)%nat /\ forall x, peval p x = (fpow_nat x n - 1) * peval q x.
+Proof.
+  intros Hk Hw W0 n. assert (Hn : (0 < n)%nat) by (apply Nat.neq_0_lt_0, Nat.pow_nonzero; lia).
+  pose proof (fpow_root_n k w Hk Hw) as Hwn. fold n in Hwn.
+  split.
+  - intros Hv. pose proof (div_xn1_spec (length p) n p Hn ltac:(nia)) as S.
+    destruct (div_xn1 (length p) n p) as [q r]. destruct S as (E & Lq & Lr).
+    exists q. split; [exact Lq|]. intros x.
+    assert (Z0 : all_zero r).
+    { apply (roots_all_zero n r (powers w n) Lr (powers_nodup k w Hk Hw W0) (powers_length w n)).
+      intros z Hz. rewrite powers_spec in Hz. apply in_map_iff in Hz. destruct Hz as (i & <- & Hi). apply in_seq in Hi.
+      specialize (E (fpow_nat w i)). rewrite Hv in E by lia.
+      assert (X : fpow_nat (fpow_nat w i) n = 1).
+      { rewrite <- fpow_nat_mul, Nat.mul_comm, fpow_nat_mul, Hwn. apply fpow_nat_one. }
+      rewrite X in E. transitivity ((1 - 1) * peval q (fpow_nat w i) + peval r (fpow_nat w i)); [ring|]. symmetry. exact E. }
+    rewrite (E x), (all_zero_peval r x Z0). ring.
+  - intros (q & _ & E) i Hi. rewrite E.
+    assert (X : fpow_nat (fpow_nat w i) n = 1).
+    { rewrite <- fpow_nat_mul, Nat.mul_comm, fpow_nat_mul, Hwn. apply fpow_nat_one. }
+    rewrite X. ring.
+Qed.
+
+(* trailing coefficients that vanish do not survive trimming *)
+Lemma ptrim_rev_length l : (length (ptrim_rev l) <= length l)%nat.
+Proof. induction l as [|c tl IH]; cbn [ptrim_rev length]; [lia|]. destruct (feqb c 0); cbn [length]; lia. Qed.
+
+Lemma ptrim_rev_drop z l : all_zero z -> ptrim_rev (z ++ l) = ptrim_rev l.
+Proof.
+  induction 1 as [|c z Hc _ IH]; cbn [app ptrim_rev]; [reflexivity|].
+  rewrite Hc. destruct (feqb_spec 0 0) as [_|N]; [exact IH|contradiction].
+Qed.
+
+Lemma nth_skipn_plus {A} (l : list A) : forall n i d, nth i (skipn n l) d = nth (n + i) l d.
+Proof.
+  induction l as [|a l IH]; intros n i d.
+  - rewrite skipn_nil. destruct i, n; reflexivity.
+  - destruct n; [reflexivity|]. cbn [skipn Nat.add nth]. apply IH.
+Qed.
+
+Lemma ptrim_length_le p L : (forall i, (L <= i)%nat -> nth i p 0 = 0) -> (length (ptrim p) <= L)%nat.
+Proof.
+  intros H. unfold ptrim. rewrite rev_length.
+  rewrite <- (firstn_skipn L p), rev_app_distr.
+  rewrite ptrim_rev_drop.
+  - eapply Nat.le_trans; [apply ptrim_rev_length|]. rewrite rev_length, firstn_length. lia.
+  - apply Forall_rev. apply Forall_forall. intros c Hc. apply In_nth with (d := 0) in Hc.
+    destruct Hc as (i & Hi & <-). rewrite nth_skipn_plus. apply H. lia.
+Qed.
+
+Lemma all_zero_nth p i : all_zero p -> nth i p 0 = 0.
+Proof.
+  intros H. destruct (Nat.lt_ge_cases i (length p)) as [L|L]; [|now apply nth_overflow].
+  unfold all_zero in H. rewrite Forall_forall in H. apply H. now apply nth_In.
+Qed.
+
+Lemma nth_padd_gen : forall p q i, nth i (padd p q) 0 = nth i p 0 + nth i q 0.
+Proof.
+  induction p as [|a p IH]; intros q i; cbn [padd].
+  - destruct i; cbn [nth]; ring.
+  - destruct q as [|b q]; [destruct i; cbn [nth]; ring|].
+    destruct i; cbn [nth]; [reflexivity|apply IH].
+Qed.
+
+(* the prover's test: T interpolates N / Z_H on m distinct points off the domain *)
+Theorem degree_test k w N T pts m :
+  (1 <= k)%nat -> fpow_nat w (Nat.pow 2 (k - 1)) = - (1) -> w <> 0 ->
+  let n := Nat.pow 2 k in
+  (n <= m)%nat -> (length N <= m)%nat -> (length T <= m)%nat ->
+  NoDup pts -> length pts = m ->
+  (forall x, In x pts -> fpow_nat x n - 1 <> 0 /\ peval T x * (fpow_nat x n - 1) = peval N x) ->
+  ((length (ptrim T) <= m - n)%nat <-> forall i, (i < n)%nat -> peval N (fpow_nat w i) = 0).
+Proof.
+  intros Hk Hw W0 n Hnm LN LT Hnd Lp Hpts.
+  assert (Hn : (0 < n)%nat) by (apply Nat.neq_0_lt_0, Nat.pow_nonzero; lia).
+  split.
+  - (* a short quotient multiplies back to N exactly *)
+    intros Hshort. set (T' := ptrim T).
+    set (P := psub (repeat 0 n ++ T') T').
+    assert (EP : forall x, peval P x = (fpow_nat x n - 1) * peval T x).
+    { intros x. unfold P. rewrite peval_psub, peval_app, peval_repeat0, repeat_length. unfold T'. rewrite peval_ptrim. ring. }
+    assert (LP : (length P <= m)%nat).
+    { unfold P, psub. rewrite padd_length. unfold pneg. rewrite map_length, app_length, repeat_length. fold T' in Hshort. lia. }
+    assert (EQ : forall x, peval P x = peval N x).
+    { apply (agree_on_n_points_equal m P N pts LP LN Hnd Lp). intros z Hz. rewrite EP.
+      destruct (Hpts z Hz) as [_ E]. rewrite <- E. ring. }
+    intros i Hi. rewrite <- EQ, EP.
+    assert (X : fpow_nat (fpow_nat w i) n = 1).
+    { rewrite <- fpow_nat_mul, Nat.mul_comm, fpow_nat_mul. unfold n. rewrite (fpow_root_n k w Hk Hw). apply fpow_nat_one. }
+    rewrite X. ring.
+  - intros Hv. destruct (proj1 (vanishing_iff_divisible k w N Hk Hw W0) Hv) as (q & Lq & E). fold n in Lq, E.
+    assert (Lq' : (length q <= m - n)%nat) by lia.
+    (* T and q agree on the m points, hence everywhere, hence coefficient-wise *)
+    assert (EQ : forall x, peval T x = peval q x).
+    { apply (agree_on_n_points_equal m T q pts LT ltac:(lia) Hnd Lp). intros z Hz.
+      destruct (Hpts z Hz) as [NZ Ez]. rewrite E in Ez.
+      assert (X : (fpow_nat z n - 1) * (peval T z - peval q z) = 0) by (transitivity (peval T z * (fpow_nat z n - 1) - (fpow_nat z n - 1) * peval q z); [ring|rewrite Ez; ring]).
+      apply fmul_integral in X. destruct X as [X|X]; [contradiction|].
+      transitivity (peval T z - peval q z + peval q z); [ring|rewrite X; ring]. }
+    set (D := psub T q).
+    assert (LD : (length D <= m)%nat) by (unfold D, psub; rewrite padd_length; unfold pneg; rewrite map_length; lia).
+    assert (ZD : all_zero D).
+    { apply (roots_all_zero m D pts LD Hnd Lp). intros z Hz. unfold D. rewrite peval_psub, EQ. ring. }
+    apply ptrim_length_le. intros i Hi.
+    pose proof (all_zero_nth D i ZD) as Hi0. unfold D, psub in Hi0. rewrite nth_padd_gen in Hi0.
+    assert (Nq : nth i (pneg q) 0 = 0) by (apply nth_overflow; unfold pneg; rewrite map_length; lia).
+    rewrite Nq in Hi0. transitivity (nth i T 0 + 0); [ring|exact Hi0].
+Qed.
+End DegreeTest.
